@@ -515,6 +515,21 @@ func c07Exec(j c07Job) (res c07Res) {
 	if int64(unspent) < exp-feeSlack {
 		res.V = append(res.V, rt.Violation{Property: "C07", Key: where + "/atomicity/value-stranded", What: fmt.Sprintf("[%s of %s, fault before %s] after restart, polls, restore, replay and re-spend attempts the client can recover %d unspent (%d locked pending) of the %d it is owed (Lightning in %d + internal %d - inputs of paid melts %d): value is stranded", j.Mode, sc.Op, res.Fault, unspent, pending, exp, w.LN.SumIn("a"), w.InternalSettled, burnt)})
 	}
+	// a quote the mint reports PAID has consumed its inputs: after the whole follow-up (polls, state checks, restart) they
+	// are SPENT — not locked for good (the state check would say PENDING for ever, C05 / C15)
+	if tt, err := w.ReadTables(); err == nil {
+		for mi, m := range w.Melts {
+			if tt.MeltQ[m.Q.Id][0] != "PAID" {
+				continue
+			}
+			for _, i := range meltInputs(mi) {
+				if _, locked := tt.Pending[w.Proofs[i].Y]; locked {
+					res.V = append(res.V, rt.Violation{Property: "C07,C05", Key: where + "/atomicity/paid-quote-inputs-stuck-pending", What: fmt.Sprintf("[%s of %s, fault before %s] after restart, polls and state checks melt quote mq%d is PAID but its input p%d is still locked (reported PENDING, never SPENT)", j.Mode, sc.Op, res.Fault, mi, i)})
+					break
+				}
+			}
+		}
+	}
 	// a paid invoice must be visible to the client as PAID with the preimage
 	for mi, m := range w.Melts {
 		if p := w.LN.Payments[m.Hash]; p != nil && p.Status == lnmodel.Succeeded {
